@@ -787,13 +787,55 @@ func guardsAt(b *ssa.BasicBlock) []Atom {
 		}
 		for idx := 0; idx < 2; idx++ {
 			if edgeDominates(a, idx, b) {
-				if at, ok := condAtom(iff.Cond, idx == 0); ok {
-					out = append(out, at.canon())
+				for _, g := range expandCond(iff.Cond, idx == 0, 0) {
+					if at, ok := condAtom(g.Cond, g.Positive); ok {
+						out = append(out, at.canon())
+					}
 				}
 			}
 		}
 	}
 	sort.Slice(out, func(i, j int) bool { return out[i].String() < out[j].String() })
+	return out
+}
+
+// expandCond looks through the value form of short-circuit expressions.  In `if a && b` go/ssa emits two
+// branches, but in `switch { case a && b: }`, `x := a && b; if x` and `return a && b` the conjunction is a
+// phi ("&&": false from the block where a failed, b from the block reached when a held).  Knowing that
+// such a phi is true means the b-edge was taken: both b and everything that guards the b-block hold.
+// Dually for "||" known to be false.  The result always contains the condition itself.
+func expandCond(cond ssa.Value, positive bool, depth int) []rawGuard {
+	out := []rawGuard{{cond, positive}}
+	if depth > 4 {
+		return out
+	}
+	switch x := cond.(type) {
+	case *ssa.UnOp:
+		if x.Op == token.NOT {
+			return append(out, expandCond(x.X, !positive, depth+1)...)
+		}
+	case *ssa.Phi:
+		if x.Comment != "&&" && x.Comment != "||" {
+			return out
+		}
+		// the constant edges are the short-circuit exits
+		var rest []int
+		for i, e := range x.Edges {
+			if v, isC := constBool(e); isC && v == (x.Comment == "||") {
+				continue
+			}
+			rest = append(rest, i)
+		}
+		if (x.Comment == "&&") != positive || len(rest) != 1 {
+			return out
+		}
+		i := rest[0]
+		pred := x.Block().Preds[i]
+		out = append(out, expandCond(x.Edges[i], positive, depth+1)...)
+		for _, g := range rawGuardsAtDepth(pred, depth+1) {
+			out = append(out, g)
+		}
+	}
 	return out
 }
 
@@ -804,7 +846,9 @@ type rawGuard struct {
 }
 
 // rawGuardsAt returns the branch conditions (as SSA values) known to hold in block b.
-func rawGuardsAt(b *ssa.BasicBlock) []rawGuard {
+func rawGuardsAt(b *ssa.BasicBlock) []rawGuard { return rawGuardsAtDepth(b, 0) }
+
+func rawGuardsAtDepth(b *ssa.BasicBlock, depth int) []rawGuard {
 	var out []rawGuard
 	for _, a := range b.Parent().Blocks {
 		if len(a.Instrs) == 0 {
@@ -816,7 +860,7 @@ func rawGuardsAt(b *ssa.BasicBlock) []rawGuard {
 		}
 		for idx := 0; idx < 2; idx++ {
 			if edgeDominates(a, idx, b) {
-				out = append(out, rawGuard{iff.Cond, idx == 0})
+				out = append(out, expandCond(iff.Cond, idx == 0, depth)...)
 			}
 		}
 	}
